@@ -33,6 +33,8 @@ def s_attr(v):
                 out.append('R:' + rule_name(e))
             elif isinstance(e, dict):
                 out.append('D' + s_kvs_names(e))
+            elif type(e).__module__.endswith('customrules'):
+                out.append('B:<%s>' % type(e).__name__)
             else:
                 out.append('B:' + s_val(e))
         return o + ','.join(out) + c
@@ -60,6 +62,9 @@ def mk_aval(a):
                 items.append(specs.mk_rule(e[1]))
             elif e[0] == 'd':
                 items.append({k: specs.mk_rule(r) for k, r in e[1]})
+            elif e[0] == 'k':
+                from .. import customrules
+                items.append(getattr(customrules, e[1])())
             else:
                 items.append(specs.py(e[1]))
         return tuple(items) if a[1] else items
@@ -80,6 +85,8 @@ def e_aval(a):
                 items.append('(XRule %s)' % specs.e_rule(e[1]))
             elif e[0] == 'd':
                 items.append('(XDict %s)' % specs.e_ctx(e[1]))
+            elif e[0] == 'k':
+                items.append('(XBad VNone)')       # an object that is neither str, Rule nor dict
             else:
                 items.append('(XBad %s)' % specs.ev(e[1]))
         return '(ASeq %s %s)' % (e_bool(a[1]), e_list(items, 'elemv'))
@@ -106,6 +113,9 @@ def gen_elem(rng, kind):
         return ['r', small_rule(rng)]
     if kind == 'd':
         return ['d', gen_ctx(rng)]
+    if rng.random() < 0.3:
+        # duck-typed look-alikes: a `satisfied` method does not make an object a Rule
+        return ['k', rng.choice(['Duck', 'DuckChild'])]
     return ['b', rng.choice([1, None, 2.5, True, ['x'], {'T': ['a']}])]
 
 
@@ -343,7 +353,7 @@ ASSUME = ['in-place mutation of a field list bypasses __setattr__ and is outside
 
 def main(argv):
     return run_check('C10', [C10Stream()], argv, trusted_base=TRUSTED, assumptions=ASSUME,
-                     translated=('policy', 'on_generated', 'pin_util'))
+                     translated=('policy', 'on_generated', 'pin_rules', 'pin_util'))
 
 
 if __name__ == '__main__':
